@@ -1,9 +1,14 @@
-(** Property C15 — statements only. Each theorem is closed by [exact] of a lemma
-    proved elsewhere and followed by [Print Assumptions]. *)
-From CR Require Import Base Atomic Machine LinksFacts HeapFacts TraceFacts Local.
+(** Property C15 — collection is iterative and linear. *)
+From Coq Require Import Permutation.
+From CR Require Import Base Atomic Machine LinksFacts HeapFacts TraceFacts TraceTotal Local StackBound
+  Termination Perm StdRc StdRefine Tokens InvDef InvLemmas ActBase ActHandles ActAdopt ActMove ActConsume
+  StepFrames StepPanic Purge GroupOps DropDec Group DropLast StepInv RunInv Consequences Common.
 Local Open Scope N_scope.
 
-Theorem C15_trace_linear :
+(** the trace visits each object of the traced set exactly once (the visited
+    list has no duplicates and [visits] is its length) and pops one worklist
+    element per Forward record of a visited object, plus one *)
+Theorem C15_trace_visits_each_once :
   forall h a own pops visits,
   cycle_refs h a = Ok (own, pops, visits) ->
   exists R,
@@ -14,5 +19,36 @@ Theorem C15_trace_linear :
     visits = N.of_nat (length R) /\
     pops = (1 + sumN (map (fun x => N.of_nat (length (fwd_targets (tbl_of h x)))) R))%N.
 Proof. exact cycle_refs_spec. Qed.
+Print Assumptions C15_trace_visits_each_once.
+
+(** closed form: linear in objects + adoptions; the trace always terminates *)
+Theorem C15_trace_linear :
+  forall h a, has_table h a -> closed_fwd h ->
+  exists own pops visits,
+    cycle_refs h a = Ok (own, pops, visits) /\
+    (pops <= 1 + N.of_nat (total_entries h))%N /\ (visits <= N.of_nat (length h))%N.
+Proof. exact cycle_refs_total_cost. Qed.
 Print Assumptions C15_trace_linear.
 
+(** destroying a collected group whose values hold handles to members only:
+    the machine stack never exceeds the depth at entry plus 5 frames, whatever
+    the group size, and the number of steps is linear *)
+Theorem C15_group_teardown_bounded_stack :
+  forall pri s o s1 es keys k u,
+  drop_strong pri s o = Ok (s1, [FInners es; FFinishGroup keys]) ->
+  closed_group es ->
+  let c0 := {| st := s; stack := FDropStrong o :: k; unw := u |} in
+  let n := group_steps es in
+  let s2 := mk (heap_of s1) (regs s1) (group_log es (log s1)) in
+  (n <= 5 * length es + 2 * length (group_slots es) + 1)%nat /\
+  run pri (S n) c0 = Running {| st := s2; stack := FFinishGroup keys :: k; unw := u |} /\
+  (forall m, (m <= S n)%nat -> exists cm, run pri m c0 = Running cm /\ (length (stack cm) <= length k + 5)%nat) /\
+  (max_depth pri (S (S n)) c0 <= length k + 5)%nat.
+Proof. exact closed_group_teardown_bounded. Qed.
+Print Assumptions C15_group_teardown_bounded_stack.
+
+(** every call terminates within an explicit, linear fuel bound *)
+Theorem C15_call_fuel_bound :
+  forall pri c, stopped (run pri (fuel_bound c) c).
+Proof. exact run_fuel_bound. Qed.
+Print Assumptions C15_call_fuel_bound.
